@@ -401,6 +401,9 @@ func generate() {
 	// 00. a restarted daemon finds BBusyState left set by a loader that died: the table must still be loaded
 	busyCases(thorough)
 
+	// 000. a .BRD with more records than the table holds
+	oversized(thorough)
+
 	// 0a. class boards in every slot, the last one included; sub-classes under a class (smallest tables first, so that
 	// the first failure of a run is a short history)
 	classTables()
@@ -663,13 +666,42 @@ func busyCases(thorough bool) {
 	}
 }
 
+// oversized: .BRD files of more than MAX_BOARD records: NumBoards = MAX_BOARD, both orders are permutations of the
+// first MAX_BOARD records, lookups resolve inside them and answer "none" for the records beyond, no panic.
+func oversized(thorough bool) {
+	extras := []int{3}
+	if thorough {
+		extras = []int{1, 3, maxBoard, 2*maxBoard + 7}
+	}
+	for _, x := range extras {
+		var bs []board
+		for i := 0; i < maxBoard+x; i++ {
+			bs = append(bs, mkBoard(fmt.Sprintf("b%03d", (i*37)%(maxBoard+x)), "aaaa", ' ', i%9 == 0 || i == maxBoard-1))
+		}
+		resetTable(bs)
+		for _, i := range []int{0, 1, maxBoard - 1, maxBoard, maxBoard + x - 1} {
+			q := string(cstr(bs[i].name))
+			do("bid " + hexs(q))
+			do("find name asc " + hexs(q))
+			do("find class desc " + hexs("aaaa") + " " + hexs(q))
+		}
+		do("walk name asc 7")
+		do("walk class desc 13")
+		do("dwalk name desc 11")
+		do("awalk asc 5 " + hexs("b0"))
+		do("fwalk 4")
+		do(fmt.Sprintf("fpage %d 2", maxBoard))
+		do("children 1 name")
+	}
+}
+
 func malformed() {
 	resetTable(plain("a", "ab", "b"))
 	for _, l := range []string{
 		"", "bid", "bid zz", "bid 6", "bid 61 62", "find", "find name up 61", "find name asc", "find name asc 6g", "find class asc 61",
 		"find class asc 61 zz", "find class sideways 61 61", "find title asc 61", "ac asc", "ac up 61", "ac asc 6", "page name asc 2", "page name asc x -",
 		"page name asc 2 61", "page name asc 2 61:62:63", "page title asc 2 -", "page name asc 2 zz:61", "apage asc 2 61", "apage asc 2 6 -",
-		"busy", "busy 2", "busy x", "fwalk", "fwalk x", "fpage 1", "fpage x 1", "children 1", "children x name", "children 1 title", "fwalk 0", "fwalk -1", "fpage 1 0", "fpage 1 -1", "fpage 1 -2",
+		"busy", "busy 2", "busy x", "reset 100 13 - - - over=", "reset 100 13 - - - over=x", "reset 100 13 - - - busy over=1", "fwalk", "fwalk x", "fpage 1", "fpage x 1", "children 1", "children x name", "children 1 title", "fwalk 0", "fwalk -1", "fpage 1 0", "fpage 1 -1", "fpage 1 -2",
 		"reset 100 13 61000000000000000000000000:6161616120a1b778:0:x:0 0 0", "reset 100 13 61000000000000000000000000:6161616120a1b778:0:1 0 0",
 		"walk name asc", "walk name asc 1.5", "walk nam asc 1", "awalk asc 1", "awalk asc 1 6", "reset", "reset 100 13 zz - -",
 		"reset 100 13 61:62 - -", "reset x 13 - - -", "frobnicate 1 2",
